@@ -208,6 +208,8 @@ DurLawsClause(m, ev) ==
      ELSE IF ev.cmp[3] /\ ev.cmp[5] THEN "<-and->"
      ELSE IF ev.cmp[4] # (ev.cmp[3] \/ ~ev.cmp[5]) \/ ev.cmp[6] # (ev.cmp[5] \/ ~ev.cmp[3]) THEN "<=/>=-inconsistent"
      ELSE IF ~Same(ev.tod, a) \/ ev.tod.wk THEN "to_days"
+     \* every value computed along the way: equal durations hash equally (vals[k] = <<projection, hash id>>)
+     ELSE IF ~fr /\ \E i, j \in 1..Len(ev.vals) : DurEq(ev.vals[i][1], ev.vals[j][1]) /\ ev.vals[i][2] # ev.vals[j][2] THEN "equal-values-hash-differently"
      ELSE "ok"
 
 \* ---------------------------------------------------------------------- C12 / C13 / C14: recurrences
